@@ -8,6 +8,7 @@ Helper definitions (`ext`, `calledOf`, `sendKeys`, `WF`, `Reach`) and the histor
 are in `RigModel.Lemmas.C06`.
 -/
 import RigModel.Lemmas.C06
+import RigModel.Lemmas.C06Term
 set_option linter.unusedSimpArgs false
 set_option linter.unusedVariables false
 
@@ -280,6 +281,221 @@ theorem retryable_ignored (d : Dgram) (ds : List Dgram) (outs : List (Nat × Out
     rcases hx with hx | hx <;> simp [hx, rcOk]
   simp only [recvAll, e1, e2, if_true]
 
+/-! ### termination under explicit progress hypotheses about the operating system
+
+`run` returns `.exhausted` when the script of batches ends before the loop does, so "the call
+terminates" is: for a long enough script the result is not `.exhausted`.  This cannot hold for every
+environment (a clock that stands still never lets a deadline pass); the hypotheses below say what
+the operating system (`time.time`, `select`, the socket) must provide.  They are assumptions about
+the OS, not facts about rig. -/
+
+/-- **What the OS must provide**, for an environment given as a clock and a stream of batches
+(`firstBatches env n` are the first `n` batches):
+(a) the clock never goes backwards;
+(b) whenever an iteration of the run receives no datagram, its final clock reading is strictly later
+    than the earliest deadline of an outstanding packet (`select` returned by timeout), `timedOut`;
+(c) the environment delivers at most `D` datagrams in total. -/
+structure Progress (cfg : Cfg) (l : List Int) (clock : Nat → Int) (s0 : Nat) (env : Nat → List Dgram)
+    (D : Nat) : Prop where
+  mono : ∀ k, clock k ≤ clock (k + 1)
+  select : ∀ n, alongRun cfg (ext l) clock (timedOut cfg (ext l) clock) (St.init s0) (firstBatches env n) = true
+  finite : ∀ n, (firstBatches env n).flatten.length ≤ D
+
+/-- the same with (b) as `select` really behaves (`timedOutWeak`): after a `select` without datagram
+the final reading is not earlier than the earliest deadline, and strictly later than the reading
+the timeout was computed from -/
+structure ProgressWeak (cfg : Cfg) (l : List Int) (clock : Nat → Int) (s0 : Nat) (env : Nat → List Dgram)
+    (D : Nat) : Prop where
+  mono : ∀ k, clock k ≤ clock (k + 1)
+  select : ∀ n, alongRun cfg (ext l) clock (timedOutWeak cfg (ext l) clock) (St.init s0) (firstBatches env n) = true
+  finite : ∀ n, (firstBatches env n).flatten.length ≤ D
+
+theorem res_cases {r : Res} (h : r ≠ .exhausted) :
+    r = .done ∨ (∃ c, r = .timeout c) ∨ (∃ rc c, r = .fatal rc c) := by
+  cases r with
+  | done => exact Or.inl rfl
+  | timeout c => exact Or.inr (Or.inl ⟨c, rfl⟩)
+  | fatal rc c => exact Or.inr (Or.inr ⟨rc, c, rfl⟩)
+  | exhausted => exact absurd rfl h
+
+section termination
+variable {s0 : Nat}
+
+/-- **Termination, on a finite script.** If every iteration that receives no datagram ends with a
+clock reading strictly later than an outstanding deadline, a script with at least
+`commands * n_tries + datagrams + 1` batches is never exhausted: the burst ends with `done`,
+`TimeoutError` or `FatalReturnCodeError`.  (The monotone clock is not needed for this form of (b).) -/
+theorem terminates_on_script (h : WF cfg) {batches : List (List Dgram)}
+    (hsel : alongRun cfg (ext l) clock (timedOut cfg (ext l) clock) (St.init s0) batches = true)
+    (hlen : l.length * cfg.nTries + batches.flatten.length + 1 ≤ batches.length) :
+    (run cfg (ext l) clock (St.init s0) batches).2.2 ≠ .exhausted := by
+  apply run_terminates h batches (St.init s0) [] (Inv.init cfg l _ s0) hsel
+  simpa [sendKeys] using hlen
+
+/-- **Iteration bound.** Under the same hypothesis the loop body runs at most
+`commands * n_tries + datagrams + 1` times, however long the script is. -/
+theorem iterations_bound (h : WF cfg) {batches : List (List Dgram)}
+    (hsel : alongRun cfg (ext l) clock (timedOut cfg (ext l) clock) (St.init s0) batches = true) :
+    iterations cfg (ext l) clock (St.init s0) batches ≤ l.length * cfg.nTries + batches.flatten.length + 1 := by
+  by_cases hle : batches.length ≤ l.length * cfg.nTries + batches.flatten.length + 1
+  · exact Nat.le_trans (iterations_le _ _ _ _ _) hle
+  · have hsplit := List.take_append_drop (l.length * cfg.nTries + batches.flatten.length + 1) batches
+    have hsel' : alongRun cfg (ext l) clock (timedOut cfg (ext l) clock) (St.init s0)
+        (batches.take (l.length * cfg.nTries + batches.flatten.length + 1)) = true := by
+      apply alongRun_prefix _ _ _ _ _ _ (batches.drop (l.length * cfg.nTries + batches.flatten.length + 1))
+      rw [hsplit]; exact hsel
+    have hfl := flatten_take_le batches (l.length * cfg.nTries + batches.flatten.length + 1)
+    have hne := terminates_on_script h hsel' (by rw [List.length_take]; omega)
+    have e : iterations cfg (ext l) clock (St.init s0) batches = iterations cfg (ext l) clock (St.init s0)
+        (batches.take (l.length * cfg.nTries + batches.flatten.length + 1)) := by
+      conv => lhs; rw [← hsplit]
+      exact iterations_append _ _ _ _ _ _ hne
+    rw [e]
+    refine Nat.le_trans (iterations_le _ _ _ _ _) ?_
+    rw [List.length_take]; omega
+
+/-- **Termination under progress.** If the OS provides (a) a clock that never goes backwards, (b)
+timed-out `select`s (strict form) and (c) at most `D` datagrams in total, then the burst of
+`l.length` commands ends within `N = commands * n_tries + D + 1` loop iterations: on the first `N`
+batches the result is `done`, `TimeoutError` or `FatalReturnCodeError` - never `exhausted` - and
+every longer prefix of the environment gives exactly the same final state, events and result.
+((a) is not used by this proof - (b) compares the final reading with the deadline directly; it is
+needed by `terminates_under_select`.) -/
+theorem terminates_under_progress (h : WF cfg) {env : Nat → List Dgram} {D : Nat}
+    (hp : Progress cfg l clock s0 env D) :
+    (let r := (run cfg (ext l) clock (St.init s0) (firstBatches env (l.length * cfg.nTries + D + 1))).2.2
+     r = .done ∨ (∃ c, r = .timeout c) ∨ (∃ rc c, r = .fatal rc c)) ∧
+    (∀ n, l.length * cfg.nTries + D + 1 ≤ n →
+      run cfg (ext l) clock (St.init s0) (firstBatches env n) =
+      run cfg (ext l) clock (St.init s0) (firstBatches env (l.length * cfg.nTries + D + 1))) ∧
+    (∀ n, iterations cfg (ext l) clock (St.init s0) (firstBatches env n) ≤ l.length * cfg.nTries + D + 1) := by
+  have hne : (run cfg (ext l) clock (St.init s0) (firstBatches env (l.length * cfg.nTries + D + 1))).2.2
+      ≠ .exhausted := by
+    apply terminates_on_script h (hp.select _)
+    have := hp.finite (l.length * cfg.nTries + D + 1)
+    rw [firstBatches_length]; omega
+  refine ⟨res_cases hne, ?_, ?_⟩
+  · intro n hn
+    obtain ⟨k, rfl⟩ : ∃ k, n = (l.length * cfg.nTries + D + 1) + k := ⟨n - (l.length * cfg.nTries + D + 1), by omega⟩
+    rw [firstBatches_add, run_append _ _ _ _ _ _ hne]
+  · intro n
+    have := iterations_bound h (hp.select n)
+    have := hp.finite n
+    omega
+
+/-- **Termination, on a finite script, `select` as it really behaves.** With a clock that never goes
+backwards, and every iteration without datagram ending with a reading that is not earlier than the
+earliest deadline and strictly later than the reading taken before `select`, a script with at
+least `2 * (commands * n_tries + datagrams + 1)` batches is never exhausted.  (A `select` that wakes
+up exactly at the deadline does not retransmit - the code compares strictly - but the next
+iteration does.) -/
+theorem terminates_on_script_weak (h : WF cfg) (hm : ∀ k, clock k ≤ clock (k + 1))
+    {batches : List (List Dgram)}
+    (hsel : alongRun cfg (ext l) clock (timedOutWeak cfg (ext l) clock) (St.init s0) batches = true)
+    (hlen : 2 * (l.length * cfg.nTries + batches.flatten.length + 1) ≤ batches.length) :
+    (run cfg (ext l) clock (St.init s0) batches).2.2 ≠ .exhausted := by
+  apply run_terminates_weak h hm batches (St.init s0) [] (Inv.init cfg l _ s0) hsel
+  left
+  simp only [sendKeys, List.filterMap_nil, List.length_nil, Nat.sub_zero]
+  omega
+
+theorem iterations_bound_weak (h : WF cfg) (hm : ∀ k, clock k ≤ clock (k + 1))
+    {batches : List (List Dgram)}
+    (hsel : alongRun cfg (ext l) clock (timedOutWeak cfg (ext l) clock) (St.init s0) batches = true) :
+    iterations cfg (ext l) clock (St.init s0) batches ≤
+      2 * (l.length * cfg.nTries + batches.flatten.length + 1) := by
+  by_cases hle : batches.length ≤ 2 * (l.length * cfg.nTries + batches.flatten.length + 1)
+  · exact Nat.le_trans (iterations_le _ _ _ _ _) hle
+  · have hsplit := List.take_append_drop (2 * (l.length * cfg.nTries + batches.flatten.length + 1)) batches
+    have hsel' : alongRun cfg (ext l) clock (timedOutWeak cfg (ext l) clock) (St.init s0)
+        (batches.take (2 * (l.length * cfg.nTries + batches.flatten.length + 1))) = true := by
+      apply alongRun_prefix _ _ _ _ _ _ (batches.drop (2 * (l.length * cfg.nTries + batches.flatten.length + 1)))
+      rw [hsplit]; exact hsel
+    have hfl := flatten_take_le batches (2 * (l.length * cfg.nTries + batches.flatten.length + 1))
+    have hne := terminates_on_script_weak h hm hsel' (by rw [List.length_take]; omega)
+    have e : iterations cfg (ext l) clock (St.init s0) batches = iterations cfg (ext l) clock (St.init s0)
+        (batches.take (2 * (l.length * cfg.nTries + batches.flatten.length + 1))) := by
+      conv => lhs; rw [← hsplit]
+      exact iterations_append _ _ _ _ _ _ hne
+    rw [e]
+    refine Nat.le_trans (iterations_le _ _ _ _ _) ?_
+    rw [List.length_take]; omega
+
+/-- **Termination under what `select` guarantees.** As `terminates_under_progress`, with (b) weakened
+to `timedOutWeak`; here the monotone clock (a) is needed, and the bound doubles:
+`N = 2 * (commands * n_tries + D + 1)` iterations. -/
+theorem terminates_under_select (h : WF cfg) {env : Nat → List Dgram} {D : Nat}
+    (hp : ProgressWeak cfg l clock s0 env D) :
+    (let r := (run cfg (ext l) clock (St.init s0) (firstBatches env (2 * (l.length * cfg.nTries + D + 1)))).2.2
+     r = .done ∨ (∃ c, r = .timeout c) ∨ (∃ rc c, r = .fatal rc c)) ∧
+    (∀ n, 2 * (l.length * cfg.nTries + D + 1) ≤ n →
+      run cfg (ext l) clock (St.init s0) (firstBatches env n) =
+      run cfg (ext l) clock (St.init s0) (firstBatches env (2 * (l.length * cfg.nTries + D + 1)))) ∧
+    (∀ n, iterations cfg (ext l) clock (St.init s0) (firstBatches env n) ≤
+      2 * (l.length * cfg.nTries + D + 1)) := by
+  have hne : (run cfg (ext l) clock (St.init s0) (firstBatches env (2 * (l.length * cfg.nTries + D + 1)))).2.2
+      ≠ .exhausted := by
+    apply terminates_on_script_weak h hp.mono (hp.select _)
+    have := hp.finite (2 * (l.length * cfg.nTries + D + 1))
+    rw [firstBatches_length]; omega
+  refine ⟨res_cases hne, ?_, ?_⟩
+  · intro n hn
+    obtain ⟨k, rfl⟩ : ∃ k, n = (2 * (l.length * cfg.nTries + D + 1)) + k :=
+      ⟨n - (2 * (l.length * cfg.nTries + D + 1)), by omega⟩
+    rw [firstBatches_add, run_append _ _ _ _ _ _ hne]
+  · intro n
+    have := iterations_bound_weak h hp.mono (hp.select n)
+    have := hp.finite n
+    omega
+
+end termination
+
+def stillCfg : Cfg := { window := 1, nTries := 1, modulus := 4, defaultTimeout := 1 }
+def stillOut : Out := { cmd := 0, tries := 1, timeout := 1, deadline := 1 }
+
+/-- **The progress hypothesis cannot be dropped.** With a clock that stands still no deadline ever
+passes: one command, no datagram, and the script is exhausted however long it is. -/
+theorem no_termination_without_progress (n : Nat) :
+    (run stillCfg (ext [0]) (fun _ => 0) (St.init 0) (List.replicate n [])).2.2 = .exhausted := by
+  have key : ∀ n (st : St), st.pend = [] →
+      (st.outs = [(0, stillOut)] ∨ (st.outs = [] ∧ st.queued = true ∧ st.next = 0 ∧ st.seqCtr = 0)) →
+      (run stillCfg (ext [0]) (fun _ => 0) st (List.replicate n [])).2.2 = .exhausted := by
+    intro n
+    induction n with
+    | zero =>
+      intro st hp ho
+      rcases ho with ho | ⟨ho, hq, _, _⟩
+      · simp [run, St.active, ho]
+      · simp [run, St.active, ho, hq]
+    | succ n ih =>
+      intro st hp ho
+      obtain ⟨nx, q, sc, k, outs, pend⟩ := st
+      simp only at hp ho
+      subst hp
+      rw [List.replicate_succ]
+      unfold run
+      rcases ho with ho | ⟨ho, hq, hn, hs⟩
+      · subst ho
+        simp only [St.active, List.isEmpty_cons, Bool.not_false, Bool.or_true, Bool.true_or, if_true]
+        have hi : (iter stillCfg (ext [0]) (fun _ => 0)
+            { next := nx, queued := q, seqCtr := sc, k := k, outs := [(0, stillOut)], pend := [] } []) =
+            ({ next := nx, queued := q, seqCtr := sc, k := k + 2, outs := [(0, stillOut)], pend := [] }, [], none) := by
+          simp [iter, fill, recvAll, retrans, stillCfg, stillOut]
+        rw [hi]
+        simp only
+        exact ih _ rfl (Or.inl rfl)
+      · subst ho hq hn hs
+        simp only [St.active, Bool.true_or, if_true]
+        have hi : (iter stillCfg (ext [0]) (fun _ => 0)
+            { next := 0, queued := true, seqCtr := 0, k := k, outs := [], pend := [] } []) =
+            ({ next := 1, queued := true, seqCtr := 1, k := k + 3, outs := [(0, stillOut)], pend := [] },
+             [Ev.send 0 0 1 0], none) := by
+          simp [iter, fill, recvAll, retrans, ext, drawSeq, hasSeq, stillCfg, stillOut]
+        rw [hi]
+        simp only
+        exact ih _ rfl (Or.inl rfl)
+  exact key n (St.init 0) rfl (Or.inr ⟨rfl, rfl, rfl, rfl⟩)
+
 /-! ### without freshness the own-reply clause fails: sequence-number wrap-around -/
 
 namespace Wrap
@@ -356,6 +572,28 @@ example : (run cfgX (ext lX) clockX (St.init 1)
 example : ∃ st, Reach cfgX lX clockX st ∧ st.outs.length = cfgX.window :=
   ⟨_, Reach.step _ [] (Reach.init 1) (by decide) (by decide), by decide⟩
 
+
+/-- a burst with loss, a retryable code, a duplicate reply and retransmissions, continued by empty
+batches for ever, satisfies the progress hypotheses (a), (b) (strict form), (c) with 6 datagrams -/
+example : Progress cfgX lX clockX 1 (scriptEnv batchesX) 6 :=
+  ⟨fun k => by simp only [clockX]; omega,
+   fun n => (script_progress _ _ _ _ _ batchesX (by decide) (by decide) n).1,
+   fun n => Nat.le_trans (script_progress cfgX (ext lX) clockX (timedOut cfgX (ext lX) clockX) (St.init 1)
+     batchesX (by decide) (by decide) n).2 (by decide)⟩
+
+/-- a `select` that wakes up exactly at the deadline (clock reading 2 = deadline 0 + 2): the strict
+form of (b) fails, the realistic one holds; the burst retransmits one iteration later and ends
+with `TimeoutError` -/
+example : alongRun { cfgX with nTries := 2 } (ext [0]) clockX (timedOut { cfgX with nTries := 2 } (ext [0]) clockX)
+    (St.init 1) [[], [], [], []] = false := by decide
+example : ProgressWeak { cfgX with nTries := 2 } [0] clockX 1 (scriptEnv [[], [], [], []]) 0 :=
+  ⟨fun k => by simp only [clockX]; omega,
+   fun n => (script_progress _ _ _ _ _ [[], [], [], []] (by decide) (by decide) n).1,
+   fun n => Nat.le_trans (script_progress { cfgX with nTries := 2 } (ext [0]) clockX
+     (timedOutWeak { cfgX with nTries := 2 } (ext [0]) clockX) (St.init 1) [[], [], [], []]
+     (by decide) (by decide) n).2 (by decide)⟩
+example : (run { cfgX with nTries := 2 } (ext [0]) clockX (St.init 1) [[], [], [], []]).2 =
+    ([.send 1 0 1 0, .send 1 0 2 4], .timeout 0) := by decide
 
 /-- `batchesX` followed by a stale datagram of an earlier burst (id 15, sequence number 0, which
 this burst does not use) -/
